@@ -147,8 +147,10 @@ package verifier
 //@   requires abvt != nil && abvt.transaction != nil && abvt.transaction.Block != nil && descWellFormed(abvt.transaction.Block)
 //@   ensures[only-contract-receive] result == nil && !isContractReceiveB(abvt.transaction.Block) ==> len(abvt.transaction.Block.DescendantBlocks) == 0
 //@   ensures[each-valid] result == nil ==> descStatic(abvt.transaction.Block)
+//@   ensures[every-descendant-carries-the-hash-of-its-content] result == nil ==> (forall k int :: 0 <= k && k < len(abvt.transaction.Block.DescendantBlocks) ==> abvt.transaction.Block.DescendantBlocks[k].Hash == nom.abHashOf(abvt.transaction.Block.DescendantBlocks[k]))
 //@   modifies nothing
 //@   loop 1
+//@     invariant forall k int :: 0 <= k && k <= rangeindex ==> abvt.transaction.Block.DescendantBlocks[k].Hash == nom.abHashOf(abvt.transaction.Block.DescendantBlocks[k])
 //@     invariant forall k int :: 0 <= k && k <= rangeindex ==> validVersion(abvt.transaction.Block.DescendantBlocks[k]) && validTypes(abvt.transaction.Block.DescendantBlocks[k]) && validAmounts(abvt.transaction.Block.DescendantBlocks[k]) && validHeights(abvt.transaction.Block.DescendantBlocks[k])
 
 //@ func accountBlockTransactionVerifier.all(abvt)
@@ -158,6 +160,7 @@ package verifier
 //@   ensures[producer] result == nil ==> okProducer(abvt.transaction.Block)
 //@   ensures[descendants] result == nil && !isContractReceiveB(abvt.transaction.Block) ==> len(abvt.transaction.Block.DescendantBlocks) == 0
 //@   ensures[descendants-valid] result == nil ==> descStatic(abvt.transaction.Block)
+//@   ensures[descendants-carry-the-hash-of-their-content] result == nil ==> (forall k int :: 0 <= k && k < len(abvt.transaction.Block.DescendantBlocks) ==> abvt.transaction.Block.DescendantBlocks[k].Hash == nom.abHashOf(abvt.transaction.Block.DescendantBlocks[k]))
 //@   modifies nothing
 
 // ---- entry points: the stores are the ones the chain holds for the block's predecessor and acknowledged momentum ----------
